@@ -6,7 +6,7 @@
    to the Rust function changes the translation; if it changes its meaning, the proof
    below fails. *)
 From Coq Require Import NArith List Bool Lia.
-From AV Require Import Generated.Ls Spec.StyleRec Spec.SgrCodes Model.Base Model.Imp Model.Text Model.Ls Generated.LsFn Proofs.LsParse.
+From AV Require Import Generated.Ls Spec.StyleRec Model.Base Model.Imp Model.Text Model.Ls Generated.LsFn.
 Import ListNotations.
 Local Open Scope N_scope.
 
@@ -69,9 +69,3 @@ Proof.
     cbn [option_map ls_st_of] in L; [|discriminate L].
   injection L as L. change t_default with (mkTStyle None None None fx_new). rewrite <- L. reflexivity.
 Qed.
-
-(* hence the translated code satisfies the specification wherever it decides *)
-Theorem g_ls_parse_is_spec : forall s : list N,
-  spec_ls s <> LsOpen ->
-  g_ls_parse s = Some (match spec_ls s with LsStyle st => Some st | _ => None end).
-Proof. intros s H. rewrite g_ls_parse_eq. now apply ls_model_is_spec. Qed.
